@@ -410,6 +410,10 @@ def enum_cases(cls):
     if cls == "postgresql":
         args = {"own_field": lambda tt: tt.a, "str": lambda tt: "a", "star": lambda tt: "*", "const": lambda tt: 1, "arith_own": lambda tt: tt.a + 1,
                 "foreign_field": lambda tt: u.a, "arith_foreign": lambda tt: u.a + 1, "function": lambda tt: __import__("pypika_tortoise.functions", fromlist=["Sum"]).Sum(tt.a), "null": lambda tt: None,
+                # an ordinary (row-wise) function is as good a RETURNING item as an arithmetic expression; only aggregates have no place there
+                "scalar_function_own": lambda tt: __import__("pypika_tortoise.functions", fromlist=["Lower"]).Lower(tt.a),
+                "scalar_function_foreign": lambda tt: __import__("pypika_tortoise.functions", fromlist=["Lower"]).Lower(u.a),
+                "custom_function_own": lambda tt: P.CustomFunction("f", ["x"])(tt.a),
                 "aliased_own": lambda tt: tt.a.as_("x"), "foreign_aliased_table": lambda tt: P.Table("t", alias="z").a,
                 # terms that are neither a field, a string, an arithmetic expression nor a function
                 "criterion_own": lambda tt: tt.a == 1, "criterion_foreign": lambda tt: u.a == 1, "isnull_foreign": lambda tt: u.a.isnull(),
